@@ -35,6 +35,16 @@ func stackAlphabet(cfg Cfg, withEvict bool) []wire.Op {
 		// a multi-key get is one request: text "get a b"; binary GETQ* closed by GET or NOOP
 		p(wire.Op{Kind: "mget", Keys: []string{"a", "b"}, Quiet: []bool{bin, false}})
 		p(wire.Op{Kind: "mget", Keys: []string{"a", "a"}, Quiet: []bool{bin, false}})
+		{
+			// one request line longer than the parser's 4 KiB buffer: 17 maximal keys that miss, then a
+			var ks []string
+			var q []bool
+			for i := 0; i < 17; i++ {
+				ks = append(ks, fmt.Sprintf("%0250d", i))
+				q = append(q, bin)
+			}
+			p(wire.Op{Kind: "mget", Keys: append(ks, "a"), Quiet: append(q, false)})
+		}
 		if bin {
 			p(wire.Op{Kind: "mget", Keys: []string{"a", "b"}, Quiet: []bool{true, true}, NoopEnd: true})
 			p(wire.Op{Kind: "mget", Keys: []string{"b", "a"}, Quiet: []bool{true, false}})
